@@ -90,12 +90,16 @@ def bitexactLog2tan (isin icos : Int) : Int :=
 
 def exp2Table8 : List Nat := [16384, 17866, 19483, 21247, 23170, 25267, 27554, 30048]
 
-/-- `compute_qn` (bands.c:660-688). -/
-def computeQn (N : Nat) (b offset pulseCap : Int) (stereo : Bool) : Nat :=
-  let N2 : Int := 2 * (N : Int) - 1 - (if stereo ∧ N = 2 then 1 else 0)
-  let qb := min 64 (min (b - pulseCap - 32) (Int.tdiv (b + N2 * offset) N2))
+/-- `qn` from the clamped `qb` (bands.c:678-684). -/
+def qnOfQb (qb : Int) : Nat :=
   if qb < 4 then 1
   else ((exp2Table8.getD (qb.toNat % 8) 0 / 2 ^ (14 - qb.toNat / 8) + 1) / 2) * 2
+
+/-- `compute_qn` (bands.c:660-688). -/
+def computeQn (N : Nat) (b offset pulseCap : Int) (stereo : Bool) : Nat :=
+  qnOfQb (min 64 (min (b - pulseCap - 32)
+    (Int.tdiv (b + (2 * (N : Int) - 1 - (if stereo ∧ N = 2 then 1 else 0)) * offset)
+      (2 * (N : Int) - 1 - (if stereo ∧ N = 2 then 1 else 0)))))
 
 /-- Step PDF (stereo, N > 2; bands.c:782-803): the decoded `x`. -/
 def thetaStep (s : BSt) (qn : Nat) : Nat × BSt :=
